@@ -287,7 +287,7 @@ def split_runs(trace_path):
     for line in open(trace_path):
         if not line.strip():
             continue
-        if '"ev":"reset"' in line or cur is None:
+        if '"ev":"reset"' in line or '"ev": "reset"' in line or cur is None:
             cur = []
             runs.append(cur)
         cur.append(line if line.endswith("\n") else line + "\n")
